@@ -64,6 +64,9 @@ type Profile struct {
 	MainSlice bool            `json:"main_slice,omitempty"`
 	Target    string          `json:"target"` // package to build, relative to /repo
 	Tags      string          `json:"tags,omitempty"`
+	// ExtraRequire is appended to the scratch copy of go.mod (never /repo's),
+	// e.g. "github.com/anishathalye/porcupine v1.3.0" for a harness-only dependency.
+	ExtraRequire string `json:"extra_require,omitempty"`
 }
 
 type Result struct {
